@@ -80,9 +80,10 @@ def rate_of_change(tier, carrier='list_none', tcarrier='dt64'):
 
 def flat_line(tier, carrier='list_none', tcarrier='dt64'):
     step = 10
-    combos = [(20, 30, 1), (20, 20, 1), (25, 35, 1), (5, 10, 1), (10, 20, 1), (30, 20, 1), (20, 1000, 1), (20, 30, 0)]
+    # (a duration of exactly 0 is a duration shorter than one step: k = 0)
+    combos = [(20, 30, 1), (20, 20, 1), (25, 35, 1), (5, 10, 1), (10, 20, 1), (30, 20, 1), (20, 1000, 1), (20, 30, 0), (0, 20, 1), (0, 0, 1), (20, 0, 1)]
     if tier == 'thorough':
-        combos += [(0, 0, 1), (40, 50, 2), (10, 10, 1), (9, 19, 1), (50, 60, 1), (15, 45, 1), (60, 10, 1)]
+        combos += [ (40, 50, 2), (10, 10, 1), (9, 19, 1), (50, 60, 1), (15, 45, 1), (60, 10, 1)]
     for s, f, tol in combos:
         for n in lengths(tier, [0, 1, 2, 3, 4, 5], [0, 1, 2, 3, 4, 5, 6, 7]):
             for pat in pats_for(n, tier, cap=8):
@@ -147,6 +148,15 @@ def attenuated(tier, carrier='list_none', tcarrier='dt64'):
             c = Case('attenuated_signal_test', [data_input('inp', pat, carrier), time_input('tinp', tt, tcarrier)], kw, n=n,
                      pat={'inp': pat}, meta={'class': 'fractional-step-window', 't': tt})
             yield c, specs.Attenuated(c)
+    # two observations per second: the trailing window (t - 1 s, t] holds the point and its predecessor only if the instants keep their half seconds
+    for n in (3, 4, 5):
+        for pat in pats_for(n, tier, cap=4):
+            tt = [100 + Fr(1, 2) * i for i in range(n)]
+            for extra in (dict(test_period=1), dict(test_period=1, min_obs=2), dict(test_period=Fr(3, 2), min_period=1)):
+                kw = dict(suspect_threshold=Fr(2), fail_threshold=Fr(1), check_type='range', **extra)
+                c = Case('attenuated_signal_test', [data_input('inp', pat, carrier), time_input('tinp', tt, tcarrier)], kw, n=n,
+                         pat={'inp': pat}, meta={'class': 'half-second-window', 't': tt})
+                yield c, specs.Attenuated(c)
     t = regular(3)
     for bad_type in ('variance', 'st', 'ran', '', 'STD', 'stdrange', None):
         c = Case('attenuated_signal_test', [data_input('inp', 'ppp', carrier), time_input('tinp', t, tcarrier)],
@@ -156,7 +166,8 @@ def attenuated(tier, carrier='list_none', tcarrier='dt64'):
 
 
 def density(tier, carrier='list_none'):
-    ths = [(None, None), (-1, None), (None, -2), (-1, -2), (-1, -1), (0, -1)]
+    # (a positive threshold is legal: "the density must grow by at least that much per pair")
+    ths = [(None, None), (-1, None), (None, -2), (-1, -2), (-1, -1), (0, -1), (2, 1), (1, -1), (1, None)]
     for s, f in ths:
         for n in lengths(tier, [0, 1, 2, 3], [0, 1, 2, 3, 4]):
             zsets = {0: [[]], 1: [[5]], 2: [[1, 2], [2, 1], [3, 3]], 3: [[1, 2, 3], [3, 2, 1], [1, 2, 1], [2, 2, 3], [1, 1, 1]],
@@ -199,7 +210,7 @@ def location(tier, carrier='list_none'):
                     c = Case('location_test', [data_input('lon', plon, carrier), data_input('lat', plat, carrier)], kw, n=n,
                              pat={'lon': plon, 'lat': plat}, meta={'class': 'hop' if rmax is not None else 'bbox'})
                     yield c, specs.Location(c)
-    for bad in ((0, 0, 1), (0, 0, 1, 1, 2), 7):
+    for bad in ((0, 0, 1), (0, 0, 1, 1, 2), 7, [], (), [0]):
         c = Case('location_test', [data_input('lon', 'p', carrier), data_input('lat', 'p', carrier)], dict(bbox=bad), n=1,
                  pat={'lon': 'p', 'lat': 'p'}, meta={'class': 'malformed-bbox'})
         yield c, specs.Location(c)
@@ -256,7 +267,17 @@ def gross_range(tier, carrier='list_none'):
                 c = Case('gross_range_test', [data_input('inp', pat, carrier)], kw, n=len(pat), pat={'inp': pat},
                          meta={'class': 'suspect' if ss else 'fail-only'})
                 yield c, specs.GrossRange(c)
-    for bad in ((0, 1, 2), (0,), 5):
+    # spans around zero (a bound equal to 0 is a bound), negative spans, and a suspect span that sticks out of the fail span by very little
+    # (in absolute terms for small bounds, in relative terms for large ones): "not contained" has no tolerance
+    extra = [((-3, 3), (0, 2)), ((-3, 3), (-2, 0)), ((3, -3), (0, 0)), ((-3, -1), (-2, -2)), ((-5, 15), (0, 10)), ((-3, 0), (-2, -1)), ((0, 3), (1, 2)),
+             ((0, 200000), (10, 200001)), ((0, 200000), (-1, 100)), ((900, Fr(101325, 100)), (950, Fr(1013255, 1000))),
+             ((0, 30), (Fr(-5, 10**9), 20)), ((0, 30), (10, 30 + Fr(1, 10**7))), ((1000000, 2000000), (999999, 1500000))]
+    for (fs, ss) in extra:
+        for pat in ('p', 'pm'):
+            kw = dict(fail_span=(Fr(fs[0]), Fr(fs[1])), suspect_span=[Fr(ss[0]), Fr(ss[1])])
+            c = Case('gross_range_test', [data_input('inp', pat, carrier)], kw, n=len(pat), pat={'inp': pat}, meta={'class': 'suspect-around-zero-or-barely-outside'})
+            yield c, specs.GrossRange(c)
+    for bad in ((0, 1, 2), (0,), 5, [], ()):
         c = Case('gross_range_test', [data_input('inp', 'p', carrier)], dict(fail_span=bad), n=1, pat={'inp': 'p'}, meta={'class': 'malformed-fail-span'})
         yield c, specs.GrossRange(c)
         c = Case('gross_range_test', [data_input('inp', 'p', carrier)], dict(fail_span=(0, 3), suspect_span=bad), n=1, pat={'inp': 'p'},
@@ -306,6 +327,12 @@ def valid_range_typed(tier):
             kw['end_inclusive'] = ei
         c = Case('valid_range_test', [data_input('inp', 'pp', carrier='ndarray_int')], kw, n=2, pat={'inp': 'pp'},
                  meta={'class': 'integer-data-integer-bounds'}, label=f'valid_range_test(integer ndarray; integer bounds {kw})')
+        yield c, specs.ValidRange(Case('valid_range_test', [], dict(kw, valid_span=(Fr(lo), Fr(hi))), n=2, pat={'inp': 'pp'}))
+    for (lo, hi) in ((-1, 256), (0, 300), (-5, 3)):
+        # whole-number bounds that the storage type of the data (uint8) cannot hold are still numbers: nothing wraps around
+        kw = dict(valid_span=(lo, hi))
+        c = Case('valid_range_test', [data_input('inp', 'pp', carrier='ndarray_u1')], kw, n=2, pat={'inp': 'pp'},
+                 meta={'class': 'uint8-data-bounds-beyond-the-type'}, label=f'valid_range_test(uint8 ndarray; integer bounds {kw})')
         yield c, specs.ValidRange(Case('valid_range_test', [], dict(kw, valid_span=(Fr(lo), Fr(hi))), n=2, pat={'inp': 'pp'}))
     day = 86400
     for (lo, hi) in ((Fr(day, 2), Fr(5 * day, 2)), (day, 3 * day)):
